@@ -61,6 +61,9 @@ def matrices3(tier):
     mats["aniso(1,2,3)"] = H(np.diag([1.0, 2, 3]))
     mats["aniso_mirror(-1,2,1)"] = H(np.diag([-1.0, 2, 1]), [0, 0, 1])
     mats["shear"] = H(np.array([[1, 1, 0], [0, 1, 2], [0, 0, 1.0]]))
+    # shears that look like rotations to a partial test: all rows (resp. columns) have unit length, they are not orthogonal
+    mats["shear_unit_rows"] = H(np.array([[1, 0, 0], [0.6, 0.8, 0], [0, 0, 1.0]]), [1, 0, 2])
+    mats["shear_unit_columns"] = H(np.array([[1, 0.6, 0], [0, 0.8, 0], [0, 0, 1.0]]))
     mats["rigid345"] = H(R345 @ RX345, [1, 2, 3])
     mats["similarity"] = H(2 * R345, [-1, 0, 2])
     mats["similarity_mirror"] = H(-0.5 * RX345, [0, 3, 0])
@@ -535,9 +538,129 @@ def check_L3(t, kind, an, A, bn, B, case):
 # ---------------------------------------------------------------------------
 
 
+L4_READERS = {
+    "path2d": ["paths", "discrete", "bounds", "length", "is_closed", "vertex_graph", "polygons_full", "area", "ALL"],
+    "path3d": ["paths", "discrete", "bounds", "length", "is_closed", "vertex_graph", "ALL"],
+    "pointcloud": ["bounds", "extents", "convex_hull", "centroid", "bounding_box_oriented", "bounding_sphere", "ALL"],
+    "mesh_box": ["face_normals", "bounds", "area", "volume", "convex_hull", "bounding_box_oriented", "triangles", "ALL"],
+}
+
+
+def _l4_edits(kind):
+    def open_loop(g):
+        g.entities[0].points = g.entities[0].points[:-1]
+
+    def verts_scale(g):
+        g.vertices *= 2.0
+
+    def vert_item(g):
+        g.vertices[0, 0] += 1.0
+
+    if kind.startswith("path"):
+        return {"none": None, "entity 0 loses its closing point": open_loop, "vertices doubled in place": verts_scale}
+    return {"none": None, "one coordinate edited in place": vert_item}
+
+
+def _l4_fresh(kind, g):
+    import trimesh
+
+    if kind.startswith("path"):
+        return type(g)(entities=[type(e)(points=np.array(e.points).copy(), **({"closed": True} if getattr(e, "closed", False) and type(e).__name__ == "Arc" else {})) for e in g.entities], vertices=np.array(g.vertices).copy(), process=False)
+    if kind == "pointcloud":
+        return trimesh.PointCloud(np.array(g.vertices).copy())
+    return trimesh.Trimesh(np.array(g.vertices).copy(), np.array(g.faces).copy(), process=False)
+
+
+def _l4_derived(kind, g):
+    out = {}
+    if kind.startswith("path"):
+        out["n_paths"] = len(g.paths)
+        out["is_closed"] = bool(g.is_closed)
+        out["bounds"] = np.array(g.bounds)
+        out["length"] = float(g.length)
+        out["discrete"] = np.array(sorted(map(tuple, np.round(np.vstack([np.asarray(d) for d in g.discrete]), 7).tolist()))) if len(g.discrete) else np.zeros((0, 2))
+        if kind == "path2d":
+            out["area"] = float(g.area)
+    elif kind == "pointcloud":
+        # the cached values first: touching g.vertices (as bounds does) can itself refresh the cache
+        h = g.convex_hull
+        out["hull_bounds"] = np.array(h.bounds)
+        out["hull_volume"] = float(h.volume)
+        out["sphere_centre"] = np.array(g.bounding_sphere.primitive.center) if hasattr(g, "bounding_sphere") else np.zeros(3)
+        out["obb_volume"] = float(np.prod(g.bounding_box_oriented.primitive.extents))
+        out["obb_centre"] = np.array(g.bounding_box_oriented.primitive.transform)[:3, 3]
+        out["bounds"] = np.array(g.bounds)
+        out["extents"] = np.array(g.extents)
+        out["centroid"] = np.array(g.centroid)
+    else:
+        out["hull_volume"] = float(g.convex_hull.volume)
+        out["hull_bounds"] = np.array(g.convex_hull.bounds)
+        out["obb_volume"] = float(np.prod(g.bounding_box_oriented.primitive.extents))
+        out["face_normals"] = np.array(g.face_normals)
+        out["area"] = float(g.area)
+        out["volume"] = float(g.volume)
+        out["bounds"] = np.array(g.bounds)
+    return out
+
+
+def check_L4(t, kind, mname, M, reader, ename, case):
+    """read one derived value (or all) -> optional in-place edit -> apply M -> every derived value must be that of
+    an object freshly built from the raw data the object now holds."""
+    g = build(kind)
+    try:
+        if reader == "ALL":
+            read_all(kind, g)
+        else:
+            getattr(g, reader)
+    except Exception:
+        pass
+    edit = _l4_edits(kind)[ename]
+    if edit is not None:
+        edit(g)
+    apply(kind, g, M)
+    try:
+        got = _l4_derived(kind, g)
+    except Exception as e:
+        # is the raw data itself unusable (then a fresh object fails the same way)?
+        try:
+            _l4_derived(kind, _l4_fresh(kind, g))
+        except Exception:
+            return
+        t.violation(f"L4: derived values raise {type(e).__name__} after [read {reader}; {ename}; apply_transform] but not on a fresh object [{kind} x {mclass(mname)}]", case, {"exc": repr(e)[:200]})
+        return
+    want = _l4_derived(kind, _l4_fresh(kind, g))
+    for k in want:
+        a, b = np.asarray(got[k], dtype=float), np.asarray(want[k], dtype=float)
+        if a.shape != b.shape or (a.size and np.abs(a - b).max() > 1e-7 * max(1.0, np.abs(b).max())):
+            t.violation(f"L4: {k} after [read; edit; apply_transform] differs from a fresh object with the same raw data [{kind} x {mclass(mname)}; edit: {ename}]", case, {"got": got[k], "want": want[k]})
+            return
+
+
 def _w(task):
     law, kind, tier = task
     t = harness.Tally()
+    if law == "L4":
+        mats = matrices2() if kind == "path2d" else matrices3(tier)
+        reps = {}
+        for mn in mats:
+            reps.setdefault(mclass(mn), mn)
+        for mn in reps.values():
+            if "near" in mclass(mn) or "tiny" in mn:
+                continue
+            if kind.startswith("path") and ("aniso" in mn or "shear" in mn):
+                # the drawings hold arcs: an arc is only mapped to an arc by a similarity
+                continue
+            for reader in L4_READERS[kind]:
+                for ename in _l4_edits(kind):
+                    case = {"law": "L4", "kind": kind, "matrix": mn, "reader": reader, "edit": ename}
+                    t.evaluations += 1
+                    t.nontrivial_count += 1
+                    try:
+                        check_L4(t, kind, mn, mats[mn], reader, ename, case)
+                    except Exception as e:
+                        t.violation(f"harness: L4 check crashed [{kind}]", case, {"exc": repr(e)[:300]})
+        t.sample({"law": "L4", "kind": kind, "reader": L4_READERS[kind][0], "edit": list(_l4_edits(kind))[1]}, limit=1)
+        return t
     mats = matrices2() if kind == "path2d" else matrices3(tier)
     names = list(mats)
     np.random.seed(7)
@@ -581,7 +704,9 @@ def replay(case):
     kind = case["kind"]
     mats = matrices2() if kind == "path2d" else matrices3("thorough")
     np.random.seed(3)
-    if case["law"] == "L1":
+    if case["law"] == "L4":
+        check_L4(t, kind, case["matrix"], mats[case["matrix"]], case["reader"], case["edit"], case)
+    elif case["law"] == "L1":
         check_L1(t, kind, case["matrix"], mats[case["matrix"]], case["preread"], case)
     elif case["law"] == "L2":
         check_L2(t, kind, case["matrix"], mats[case["matrix"]], case["preread"], case)
@@ -593,6 +718,7 @@ def replay(case):
 def main(run):
     tier = run.tier
     tasks = [(law, kind, tier) for law in ("L1", "L2", "L3") for kind in KINDS3 + KINDS2]
+    tasks += [("L4", kind, tier) for kind in L4_READERS]
     res = harness.pmap(_w, tasks)
     run.merge(res)
     n = run.tally.evaluations
